@@ -47,6 +47,21 @@ StagesOf(name) ==
                      <<SP, 99, LF>>, <<120, LF>>, <<97, SP, COLON, 98, LF>>, <<97, COLON, 1, LF>>,
                      <<HT, LF>>, <<97, COLON, CR, LF>> }
          IN << ls, ls, ls, ls, ls, ls, {<<LF>>, <<CR, LF>>, <<98, COLON>>} >>
+    [] name = "METHODS" ->
+         \* the method fast paths of the implementation compare 4 bytes against "GET " and
+         \* "POST" and then look one byte further: every prefix of those literals, followed
+         \* by every kind of byte, ending the buffer at every point
+         << {<<>>, <<CR, LF>>, <<LF>>},
+            {<<>>, <<71>>, <<71, 69>>, <<71, 69, 84>>, <<71, 69, 84, 32>>, <<80>>, <<80, 79>>, <<80, 79, 83>>,
+             <<80, 79, 83, 84>>, <<80, 79, 83, 84, 32>>, <<80, 85, 84>>, <<71, 69, 84, 84>>, <<80, 79, 83, 84, 83>>},
+            {<<>>} \cup {<<b>> : b \in {0, 9, 10, 13, 32, 33, 47, 58, 65, 84, 97, 127, 128, 255}},
+            {<<>>, <<47, 32, 72, 84, 84, 80, 47, 49, 46, 49, 13, 10, 13, 10>>, <<32, 47, 32, 72, 84, 84, 80, 47, 49, 46, 48, 10, 10>>} >>
+    [] name = "VERSIONS" ->
+         \* the version is compared 8 bytes at a time when 8 bytes are there, byte-wise otherwise
+         << {<<71, 69, 84, 32, 47, 32>>, <<>>},
+            {SubSeq(<<72, 84, 84, 80, 47, 49, 46, 49>>, 1, k) : k \in 0..8} \cup {<<72, 84, 84, 80, 47, 49, 46, 48>>},
+            {<<>>} \cup {<<b>> : b \in {0, 10, 13, 32, 46, 47, 48, 49, 50, 72, 80, 84, 104, 255}},
+            {<<>>, <<13, 10, 13, 10>>, <<32, 50, 48, 48, 32, 79, 75, 13, 10, 13, 10>>, <<49, 46, 49, 10, 10>>} >>
     [] OTHER -> << >>
 Stages == StagesOf(L)
 
